@@ -17,3 +17,20 @@ Inductive pkind : Type :=
 | KEmpty                (* StaticField('', 0) *)
 | KNone                 (* the table holds None *)
 | KMissing.             (* the decoded name is not a key of the table: KeyError *)
+
+(* the shapes of the members of DWARFStructs.Dwarf_lineprog_header and Dwarf_lineprog_file_entry
+   (dwarf/structs.py _create_lineprog_header).  The member lists themselves are data and are
+   regenerated from the live construct objects into Gen/C05Tables.v (every lambda is probed). *)
+Inductive hfield : Type :=
+| HInitialLength        (* _InitialLengthAdapter(Struct(uint32 first, If(first == 0xFFFFFFFF, uint64 second))) *)
+| HField (k : pkind)    (* a plain field *)
+| HIfVerGe (t : Z) (f : hfield) (dflt : option Z)   (* If(lambda ctx: ctx.version >= t, f, elsevalue); None = Python None *)
+| HIfVerLt (t : Z) (f : hfield) (dflt : option Z)   (* If(lambda ctx: ctx.version < t, f, elsevalue) *)
+| HIfNonEmpty (field : string) (fs : list (string * pkind))
+                        (* If(lambda ctx: bool(ctx.<field>), Embed(Struct('', fs...))) *)
+| HCountMinus1 (field : string) (k : pkind)          (* Array(lambda ctx: ctx.<field> - 1, k) *)
+| HPrefixed (count_name : string) (count : pkind) (elem : hfield)   (* PrefixedArray(elem, count) *)
+| HFormatStruct         (* Struct(Enum(ULEB128 content_type, **ENUM_DW_LNCT), Enum(ULEB128 form, **ENUM_DW_FORM)) *)
+| HFormattedEntry (format_field : string)            (* FormattedEntry(name, structs, format_field) *)
+| HUntilEmptyString     (* RepeatUntilExcluding(lambda obj, ctx: obj == b'', CString) *)
+| HUntilEmptyName.      (* RepeatUntilExcluding(lambda obj, ctx: not obj.name, Dwarf_lineprog_file_entry) *)
